@@ -1,0 +1,25 @@
+//go:build verif
+
+// Contracts for multiplexedChunkReader (property C15), the bookkeeping a
+// sequential verifier can see: pendingConsumers counts the consumers that
+// still have to ask for the current chunk; a consumer that leaves is not
+// counted for the next round; the source is closed by the last consumer and
+// only by it. (That no consumer blocks forever for all interleavings is not
+// decided; this is the arithmetic it rests on.) Comment-only file.
+package buffer
+
+//@ pure muxWF(r) = r.pendingConsumers >= 1 && len(r.waitingConsumers) <= 1000000000
+//@ func (*multiplexedChunkReader).readAndShareWithOthers
+//@   requires r.r != nil && 0 <= currentConsumerContinues && currentConsumerContinues <= 1 && len(r.waitingConsumers) <= 1000000000
+//@   ensures [next-round-counts-exactly-those-who-stay] r.pendingConsumers == old(len(r.waitingConsumers)) + currentConsumerContinues
+//@   ensures [nobody-left-waiting] len(r.waitingConsumers) == 0
+//@   ensures [source-kept] unchanged(r.r) && crClosed(r.r) == old(crClosed(r.r))
+//@   loop 0 invariant -1 <= rangeindex && unchanged(len(r.waitingConsumers)) && unchanged(r.r) && crClosed(r.r) == old(crClosed(r.r))
+//@ func (*multiplexedChunkReader).Close
+//@   requires muxWF(r) && held(addr(r.lock)) == 0 && (r.pendingConsumers > 1 || r.r != nil)
+//@   ensures [leaver-is-not-counted-again] old(r.pendingConsumers) == 1 && old(len(r.waitingConsumers)) > 0 ==>
+//@         r.pendingConsumers == old(len(r.waitingConsumers)) && r.r == old(r.r)
+//@   ensures [last-consumer-closes-the-source] old(r.pendingConsumers) == 1 && old(len(r.waitingConsumers)) == 0 ==>
+//@         r.r == nil && crClosed(old(r.r)) == old(crClosed(old(r.r))) + 1
+//@   ensures [others-keep-the-source] old(r.pendingConsumers) > 1 ==> r.pendingConsumers == old(r.pendingConsumers) - 1 && r.r == old(r.r)
+//@         && (old(r.r) != nil ==> crClosed(old(r.r)) == old(crClosed(old(r.r))))
